@@ -129,8 +129,9 @@ Definition main_step (s : st) : option st :=
       if executes s then Some (with_main s1 M2) else Some (with_main (with_mu s1 None) MDone)
   | M2 => if leader_dead (tbl s) then Some (with_main (with_reaped s) M3) else None
   | M3 => if pipes_free s then Some (with_main s M4) else None
-  | M4 => (* Execute: isRunning = false; Unlock; deferred Cancel *)
-      Some (with_main (with_ctx (with_mu (with_running s false) None) true) MDone)
+  | M4 => (* Run: if ctx.Err() != nil { killProcessGroup };  Execute: isRunning = false; Unlock; deferred Cancel *)
+      let s1 := if ctx_done s then with_gkill s else s in
+      Some (with_main (with_ctx (with_mu (with_running s1 false) None) true) MDone)
   | MDone => None
   end.
 
